@@ -80,3 +80,23 @@ impl Gate {
         }
     }
 }
+
+impl GType {
+    pub fn from_qasm_name(s: &str) -> GType {
+        match s {
+            "rz" => ZPhase,
+            "s" => S,
+            "sdg" => Sdg,
+            _ => UnknownGate,
+        }
+    }
+    /// control: Sdg prints as "s"
+    pub fn qasm_name(&self) -> &'static str {
+        match self {
+            ZPhase => "rz",
+            S => "s",
+            Sdg => "s",
+            _ => "UNKNOWN",
+        }
+    }
+}
